@@ -7,6 +7,7 @@
 (*   {e:"ret", g, c, op, cls, res, seq, ref}  call c of g returned res; seq is what the same call    *)
 (*                              returns when run alone; ref # 0: id of the []byte the caller holds   *)
 (*   {e:"look", g, c, now}      the caller re-inspected that []byte later                            *)
+(*   {e:"drop", g, c}           the caller called the same package again: it stops holding that []byte *)
 (*   {e:"race", a, b}           the Go race detector reported a data race (top ojg frames a, b)      *)
 (* The events drive the state variables of Concurrency (inst, pc, buf, held, result, reading,        *)
 (* writing) with the logged choices, and after every event the invariants of Concurrency are        *)
@@ -20,9 +21,8 @@ TraceLog == ndJsonDeserialize("trace.ndjson")
 NT == Len(TraceLog)
 
 VARIABLES c,      \* run being consumed
-          j,      \* next event
-          snap    \* <<g, call>> -> result text at Return
-tvars == <<c, j, snap, vars>>
+          j       \* next event
+tvars == <<c, j, vars>>
 
 GMax == 16
 Blank == /\ prog = <<>> /\ k = [g \in 1..GMax |-> 1] /\ pc = [g \in 1..GMax |-> "idle"] /\ inst = [g \in 1..GMax |-> 0]
@@ -30,7 +30,7 @@ Blank == /\ prog = <<>> /\ k = [g \in 1..GMax |-> 1] /\ pc = [g \in 1..GMax |-> 
          /\ result = [g \in 1..GMax |-> <<>>] /\ lock = 0 /\ cached = FALSE /\ miss = <<>>
          /\ reading = {} /\ writing = {} /\ sched = <<>>
 
-TraceInit == /\ c = 1 /\ j = 1 /\ snap = <<>> /\ Blank
+TraceInit == /\ c = 1 /\ j = 1 /\ Blank
              /\ TLCSet(1, <<>>) /\ TLCSet(2, 0) /\ TLCSet(3, 0) /\ TLCSet(4, 0)
 
 Ev == TraceLog[c].ev[j]
@@ -52,25 +52,27 @@ TGet == /\ Ev.e = "get"
                p  == [pc EXCEPT ![Ev.g] = "got"]
            IN /\ Report(IF TExclusive(in, p) THEN <<>> ELSE <<Rec("exclusive", Ev.p, Ev.p)>>)
               /\ inst' = in /\ pc' = p
-        /\ Same /\ UNCHANGED <<buf, held, result, reading, writing, snap>>
+        /\ Same /\ UNCHANGED <<buf, held, result, reading, writing>>
 TPut == /\ Ev.e = "put"
         /\ Report(<<>>)
         /\ inst' = [inst EXCEPT ![Ev.g] = 0] /\ pc' = [pc EXCEPT ![Ev.g] = "idle"]
-        /\ Same /\ UNCHANGED <<buf, held, result, reading, writing, snap>>
+        /\ Same /\ UNCHANGED <<buf, held, result, reading, writing>>
 TCache == /\ Ev.e \in {"lock", "fill", "unlock"}
           /\ LET x  == <<Ev.g, Ev.m>>
                  rd == IF Ev.e = "lock" THEN reading \cup {x} ELSE IF Ev.e = "unlock" THEN reading \ {x} ELSE reading
                  wr == IF Ev.e = "fill" THEN writing \cup {x} ELSE IF Ev.e = "unlock" THEN writing \ {x} ELSE writing
              IN /\ Report(IF TNoUnlockedWriteRead(rd, wr) THEN <<>> ELSE <<Rec("unlocked-write-read", Ev.m, Ev.m)>>)
                 /\ reading' = rd /\ writing' = IF TNoUnlockedWriteRead(rd, wr) THEN wr ELSE wr \ {x}
-          /\ Same /\ UNCHANGED <<inst, pc, buf, held, result, snap>>
+          /\ Same /\ UNCHANGED <<inst, pc, buf, held, result>>
 TRet == /\ Ev.e = "ret"
         /\ LET g   == Ev.g
                n   == Len(result[g]) + 1
                tag == <<g, n>>
                ok  == Ev.res = Ev.seq                                  \* SequentialEquivalence of this call
                bf  == IF Ev.ref = 0 THEN buf ELSE (Ev.ref :> tag) @@ buf       \* Use: the call wrote this buffer
-               hd  == [held EXCEPT ![g] = @ \cup {[call |-> n, ref |-> Ev.ref, tag |-> tag, op |-> Ev.op]}]
+               \* only results that are buffers (ref # 0) can be written by somebody else; text = the content handed out
+               hd  == IF Ev.ref = 0 THEN held
+                      ELSE [held EXCEPT ![g] = @ \cup {[call |-> n, ref |-> Ev.ref, tag |-> tag, op |-> Ev.op, text |-> Ev.res]}]
                br  == TIsolationBreaches(hd, bf)                       \* BufferIsolation on the new state
                brs == {<<y[2].op, Ev.op>> : y \in br}
            IN /\ Report((IF ok THEN <<>> ELSE <<Rec("wrong-result", Ev.op, Ev.op)>>)
@@ -78,26 +80,30 @@ TRet == /\ Ev.e = "ret"
               /\ result' = [result EXCEPT ![g] = Append(@, IF ok THEN tag ELSE <<0, 0>>)]
               /\ buf' = bf
               /\ held' = [h \in 1..GMax |-> {x \in hd[h] : <<h, x>> \notin br}]     \* reported once
-              /\ snap' = (tag :> Ev.res) @@ snap
         /\ Same /\ UNCHANGED <<inst, pc, reading, writing>>
 TLook == /\ Ev.e = "look"
          /\ LET hs == {x \in held[Ev.g] : x.call = Ev.c} IN
             IF hs = {} THEN Report(<<>>) /\ UNCHANGED held
             ELSE LET x == CHOOSE x \in hs : TRUE
                      ownReuse == x.ref # 0 /\ buf[x.ref] # x.tag /\ buf[x.ref][1] = Ev.g   \* documented: reused by the caller's own next call
-                 IN IF Ev.now = snap[x.tag] \/ ownReuse THEN Report(<<>>) /\ UNCHANGED held
+                 IN IF Ev.now = x.text \/ ownReuse THEN Report(<<>>) /\ UNCHANGED held
                     ELSE /\ Report(<<Rec("alters-returned", x.op, x.op)>>)
                          /\ held' = [held EXCEPT ![Ev.g] = @ \ {x}]
-         /\ Same /\ UNCHANGED <<inst, pc, buf, result, reading, writing, snap>>
+         /\ Same /\ UNCHANGED <<inst, pc, buf, result, reading, writing>>
+\* the caller called the same package again itself: from now on the buffer may be reused by its own calls (documented)
+TDrop == /\ Ev.e = "drop"
+         /\ Report(<<>>)
+         /\ held' = [held EXCEPT ![Ev.g] = {x \in @ : x.call # Ev.c}]
+         /\ Same /\ UNCHANGED <<inst, pc, buf, result, reading, writing>>
 TRace == /\ Ev.e = "race"
          /\ Report(<<Rec("race", Ev.a, Ev.b)>>)      \* no action of Concurrency produces a data race
-         /\ Same /\ UNCHANGED <<inst, pc, buf, held, result, reading, writing, snap>>
+         /\ Same /\ UNCHANGED <<inst, pc, buf, held, result, reading, writing>>
 
 TStep == /\ c <= NT /\ j <= Len(TraceLog[c].ev)
-         /\ (TGet \/ TPut \/ TCache \/ TRet \/ TLook \/ TRace)
+         /\ (TGet \/ TPut \/ TCache \/ TRet \/ TLook \/ TDrop \/ TRace)
          /\ j' = j + 1 /\ UNCHANGED c
 TEnd == /\ c <= NT /\ j > Len(TraceLog[c].ev)
-        /\ c' = c + 1 /\ j' = 1 /\ snap' = <<>>
+        /\ c' = c + 1 /\ j' = 1
         /\ prog' = <<>> /\ k' = k /\ pc' = [g \in 1..GMax |-> "idle"] /\ inst' = [g \in 1..GMax |-> 0]
         /\ free' = <<>> /\ nextInst' = 1 /\ buf' = <<>> /\ val' = <<>> /\ held' = [g \in 1..GMax |-> {}]
         /\ result' = [g \in 1..GMax |-> <<>>] /\ lock' = 0 /\ cached' = FALSE /\ miss' = <<>>
